@@ -198,6 +198,62 @@ theorem sum_is_total (x : HQ) (q : Qty) (h : Val.sum (.h x) = .ok (.q q)) : q.ph
   simp only [Val.sum] at h
   injection h with h; injection h with h; subst h; rfl
 
+/-! ## shift by a duration -/
+
+/-- **a shift by the duration `d` moves every hour `t` to the hour that contains `t + d`**: the number
+of hours shifted is the `k` with `3600·k ≤ d < 3600·(k+1)` (in seconds), for positive *and negative*
+durations and whatever unit the duration is written in -/
+theorem shift_by_duration_hour (x : HQ) (d : Qty) (v : Val) (h : (Val.h x).shiftByDuration d = .ok v) :
+    ∃ k : Int, v = .h ⟨Series.shift k x.vals, x.unit⟩ ∧
+      3600 * (k : Rat) ≤ d.phys ∧ d.phys < 3600 * ((k : Rat) + 1) := by
+  unfold Val.shiftByDuration at h
+  simp only [bind, Except.bind] at h
+  cases hd : d.to ⟨3600, { time := 1 }⟩ with
+  | error e => simp [hd] at h
+  | ok d' =>
+    simp only [hd, Val.shiftBy, Except.ok.injEq] at h
+    refine ⟨d'.mag.floor, h.symm, ?_, ?_⟩
+    all_goals
+      have hp := (phys_to d d' ⟨3600, { time := 1 }⟩ (by norm_num) hd)
+      have hm : d'.mag = d.phys / 3600 := by
+        have h1 := hp.1
+        have h2 := hp.2
+        simp only [Qty.phys] at h1 ⊢
+        rw [h2] at h1
+        simp only at h1
+        rw [← h1]; field_simp
+    · have := Rat.floor_le d'.mag
+      rw [hm] at this ⊢
+      have h3600 : (0 : Rat) < 3600 := by norm_num
+      calc 3600 * ((d.phys / 3600).floor : Rat) ≤ 3600 * (d.phys / 3600) := by
+            exact mul_le_mul_of_nonneg_left this (le_of_lt h3600)
+        _ = d.phys := by field_simp
+    · have := Rat.lt_floor_add_one d'.mag
+      push_cast at this
+      rw [hm] at this ⊢
+      have h3600 : (0 : Rat) < 3600 := by norm_num
+      calc d.phys = 3600 * (d.phys / 3600) := by field_simp
+        _ < 3600 * (((d.phys / 3600).floor : Rat) + 1) := by
+            exact mul_lt_mul_of_pos_left this h3600
+
+/-- … so two durations of the same physical length shift by the same number of hours -/
+theorem shift_by_duration_unit_independent (x : HQ) (d d' : Qty) (v v' : Val) (hp : d.phys = d'.phys)
+    (h : (Val.h x).shiftByDuration d = .ok v) (h' : (Val.h x).shiftByDuration d' = .ok v') : v = v' := by
+  obtain ⟨k, hv, h1, h2⟩ := shift_by_duration_hour x d v h
+  obtain ⟨k', hv', h1', h2'⟩ := shift_by_duration_hour x d' v' h'
+  rw [hp] at h1 h2
+  have hk : k = k' := by
+    have a : (k : Rat) < (k' : Rat) + 1 := by linarith
+    have b : (k' : Rat) < (k : Rat) + 1 := by linarith
+    have a' : k < k' + 1 := by exact_mod_cast a
+    have b' : k' < k + 1 := by exact_mod_cast b
+    omega
+  rw [hv, hv', hk]
+
+/-- a negative half hour moves a value one hour back (truncation towards zero would not: seed C09-d) -/
+example : (Val.h ⟨[(36000, 5)], ⟨1, {}⟩⟩).shiftByDuration ⟨-30, ⟨60, { time := 1 }⟩⟩
+    = .ok (.h ⟨[(32400, 5)], ⟨1, {}⟩⟩) := by decide +kernel
+
 /-! ## non-vacuity: concrete operands meeting the hypotheses -/
 
 example : (Qty.mk 3 ⟨1000, {mass := 1}⟩).add (Qty.mk 500 ⟨1, {mass := 1}⟩) = .ok ⟨7/2, ⟨1000, {mass := 1}⟩⟩ := by
